@@ -729,7 +729,7 @@ func (r *run) atomCaught(T *Node, signer neotest.SingleSigner, extra []*transact
 	}
 	manyCaught := !nested && ap.Pieces[0].A%6 == 4
 	if manyCaught {
-		// hundreds of exceptions thrown one CALL frame deep (a function with nine local slots) and caught by the caller in
+		// hundreds of exceptions thrown one CALL frame deep (a function with nine arguments) and caught by the caller in
 		// a loop, then a notification; the twin does the same once. Whatever the VM keeps per frame has to be given back
 		// when a frame is unwound: both halt with the same events
 		loopScript := func(n int) []byte {
@@ -739,21 +739,25 @@ func (r *run) atomCaught(T *Node, signer neotest.SingleSigner, extra []*transact
 			tail := nio.NewBufBinWriter()
 			emit.AppCall(tail.BinWriter, k0, "ev", callflag.All, []byte("after"))
 			emit.Opcodes(tail.BinWriter, opcode.RET)
-			// 5: TRY  8: CALL f  10: ENDTRY->15  12: DROP  13: ENDTRY->15  15: LDLOC0 INC STLOC0 LDLOC0 PUSHINT16 n LT  23: JMPIF 5  25: tail  f
-			fpos := 25 + tail.Len()
-			emit.Instruction(w.BinWriter, opcode.TRY, []byte{7, 0})
-			emit.Instruction(w.BinWriter, opcode.CALL, []byte{byte(fpos - 8)})
+			// 5: TRY  8: PUSH1 x9  17: CALL f  19: ENDTRY->24  21: DROP  22: ENDTRY->24  24: LDLOC0 INC STLOC0 LDLOC0  28: PUSHINT16 n
+			// 31: LT  32: JMPIF 5  34: tail  f (nine arguments)
+			fpos := 34 + tail.Len()
+			emit.Instruction(w.BinWriter, opcode.TRY, []byte{16, 0})
+			for i := 0; i < 9; i++ {
+				emit.Opcodes(w.BinWriter, opcode.PUSH1)
+			}
+			emit.Instruction(w.BinWriter, opcode.CALL, []byte{byte(fpos - 17)})
 			emit.Instruction(w.BinWriter, opcode.ENDTRY, []byte{5})
 			emit.Opcodes(w.BinWriter, opcode.DROP)
 			emit.Instruction(w.BinWriter, opcode.ENDTRY, []byte{2})
 			emit.Opcodes(w.BinWriter, opcode.LDLOC0, opcode.INC, opcode.STLOC0, opcode.LDLOC0)
 			emit.Instruction(w.BinWriter, opcode.PUSHINT16, []byte{byte(n), byte(n >> 8)})
 			emit.Opcodes(w.BinWriter, opcode.LT)
-			emit.Instruction(w.BinWriter, opcode.JMPIF, []byte{byte(0x100 - 18)})
+			emit.Instruction(w.BinWriter, opcode.JMPIF, []byte{byte(0x100 - 27)})
 			w.WriteBytes(tail.Bytes())
-			emit.Instruction(w.BinWriter, opcode.INITSLOT, []byte{9, 0})
+			emit.Instruction(w.BinWriter, opcode.INITSLOT, []byte{2, 9})
 			emit.Opcodes(w.BinWriter, opcode.PUSH1, opcode.THROW)
-			if fpos-8 > 120 {
+			if fpos-17 > 120 {
 				sim.Harnessf("loop script too long")
 			}
 			return w.Bytes()
